@@ -57,6 +57,12 @@ func (b *RulesBuilder) Apply(rules []*config_parser.RoutingRule) (err error) {
 				return fmt.Errorf("unknown function: %v", f.Name)
 			}
 			paramValueGroups, keyOrder := groupParamValuesByKey(f.Params)
+			if len(keyOrder) == 0 {
+				// No match set would be emitted for this function: the condition would silently
+				// disappear (or, as the last function of a rule, the rule's outbound would never be
+				// written and the next rule would be chained to this one).
+				return fmt.Errorf("failed to parse '%v': function has no parameters (a geodata expansion yielded nothing?)", f.String(false, false, false))
+			}
 			for jMatchSet, key := range keyOrder {
 				paramValueGroup := paramValueGroups[key]
 				// Preprocess the outbound.
